@@ -258,11 +258,24 @@ def _collision_guard(hist_call: ast.Call, pm, rd: ReachingDefs, prov: Prov):
 def _o4(ctx, upd, rd, prov, pm, where, rel):
     col = ctx.col
     dels = [n for n in own_nodes(upd.node) if _self_call(n, (DEL_FN,))]
-    col.floor("cleanup_call_sites", len(dels), 1)
+    col.count("cleanup_call_sites", len(dels))
     for call in dels:
         # the deleted collection: names inside the call's arguments
         roots = [n for a in call.args for n in ast.walk(a) if isinstance(n, ast.Name) and isinstance(n.ctx, ast.Load)
                  and n.id not in ("tuple", "list", "sorted", "set")]
+        direct = [a for a in call.args if isinstance(a, ast.Name) and prov.path_kind(a) is not None
+                  and prov.path_kind(a)[0] != "mixed"]
+        if direct:
+            # paths passed directly: each must be a superseded path, and nothing subtracts the new paths
+            for r in direct:
+                k = prov.path_kind(r)
+                col.ob("G10", "O4", f"{where}::cleanup-member[{k}]", k[1] in ("last", "prev_best"),
+                       f"`{u(r)}` is deleted but is not a previous-last / previous-best checkpoint path", rel,
+                       r.lineno, sample=dict(member=u(r), provenance=k))
+            col.ob("G10", "O4", f"{where}::cleanup-minus-new-paths", False,
+                   "checkpoint paths are deleted directly, without subtracting the new checkpoint paths "
+                   "(a format without the epoch field would delete the checkpoint just written)", rel, call.lineno)
+            continue
         if len(roots) != 1:
             raise AnalysisError("C16-O4: deletion argument is not a single collection variable")
         root = roots[0]
@@ -504,7 +517,7 @@ def _o6(ctx, rel):
             col.ob("G10", "O6", f"{where}::{kind}", kind in allowed,
                    f"`{cn}` ({kind}) occurs in {f.qualname}; file mutation is reserved to "
                    f"{sorted(DESIGNATED)}", rel, c.lineno, sample=dict(function=f.qualname, call=u(c)[:80]))
-    col.floor("write_primitives", nprim, 5)
+    col.floor("write_primitives", nprim, 3)
     # history header only when the file did not exist
     f = pkg.func(f"{MOD}::{CLS}.{HIST_FN}")
     rd = ReachingDefs(f.node)
@@ -578,3 +591,69 @@ MANIFEST = dict(
     technique="static analysis: syntax-directed CFG path enumeration + typestate over effect events, reaching-definitions provenance",
     design_ref="DESIGN.md section 4 C16, section 3 G10",
 )
+
+
+def _mutants():
+    from selftest.mutate import Mutant as M
+    T = "training.py"
+    return [
+        M("swap-save-hist-no-conflict", T,
+          "self.save_model_and_optimizer_with_info(model, optimizer, info)\nself.save_info_to_hist(info)",
+          "self.save_info_to_hist(info)\nself.save_model_and_optimizer_with_info(model, optimizer, info)",
+          "G10/O2", 0),
+        M("constant-guard", T,
+          "save_info_first = os.path.exists(model_pth) or os.path.exists(optim_pth)",
+          "save_info_first = True", "hist-before-ckpt[unguarded]"),
+        M("cleanup-removed", T,
+          "clean_up -= {model_pth, optim_pth}\nself._clean_up_files(*tuple(clean_up))",
+          "pass", "cleanup-exists"),
+        M("cleanup-moved-up", T,
+          "if save_info_first:\n    self.save_info_to_hist(info)\ntry:",
+          "self._clean_up_files(last_model_pth, last_optim_pth)\nif save_info_first:\n    self.save_info_to_hist(info)\ntry:",
+          "G10/O3", 0),
+        M("drop-minus-new-paths", T, "clean_up -= {model_pth, optim_pth}", "pass", "cleanup-minus-new-paths"),
+        M("drop-best-guard", T,
+          "if last_best != cur_best:\n    clean_up |= {last_best_model_pth, last_best_optim_pth}",
+          "clean_up |= {last_best_model_pth, last_best_optim_pth}", "cleanup-prev-best-guard"),
+        M("delete-current-best", T,
+          "clean_up |= {last_best_model_pth, last_best_optim_pth}",
+          "clean_up |= {best_model_pth, best_optim_pth}", "G10/O4"),
+        M("direct-torch-save", T,
+          "with tempfile.NamedTemporaryFile('wb', dir=dir_, delete=False) as f:\n    torch.save(obj, f)\n    replaces.append((f.name, path))",
+          "torch.save(obj, path)", "G10/O5"),
+        M("tmp-without-dir", T, "tempfile.NamedTemporaryFile('wb', dir=dir_, delete=False)",
+          "tempfile.NamedTemporaryFile('wb', delete=False)", "torch.save->tmp"),
+        M("replace-inside-save-loop", T,
+          "replaces.append((f.name, path))", "replaces.append((f.name, path))\nos.replace(f.name, path)",
+          "all-temporaries-before-first-replace"),
+        M("history-mode-w", T, "with open(self.state_csv_path, 'a') as f:", "with open(self.state_csv_path, 'w') as f:",
+          "G10/O6"),
+        M("header-always", T, "if write_header:\n    wr.writerow(names)", "wr.writerow(names)", "header-once"),
+        M("save-in-other-method", T, "def get_last_epoch(self) -> int:\n    \"\"\"Return the last finished epoch from training, or 0 if no history\"\"\"",
+          "def get_last_epoch(self) -> int:\n    torch.save(self.cache_hist, self.state_csv_path + '.bak')", "G10/O6"),
+        M("drop-refusal", T,
+          "if model_pth == best_model_pth:", "if False and model_pth == best_model_pth:", "G10/O7"),
+        M("refusal-after-save", T, "elif optim_pth == best_optim_pth:", "elif optim_pth == last_optim_pth:",
+          "G10/O7"),
+        M("loader-swapped-paths", T,
+          "optimizer_state_dict = torch.load(optim_pth, map_location='cpu')",
+          "optimizer_state_dict = torch.load(model_pth, map_location='cpu')", "G10/O8"),
+        M("saver-swapped-pairs", T,
+          "(model.state_dict(), self.get_model_path_with_info(info))",
+          "(model.state_dict(), self.get_optimizer_path_with_info(info))", "G10/O8"),
+        M("hist-dropped-in-else", T,
+          "if not save_info_first:\n    self.save_info_to_hist(info)", "pass", "G10/O1", 1),
+        M("double-hist", T,
+          "if not save_info_first:\n    self.save_info_to_hist(info)", "self.save_info_to_hist(info)", "G10/O1", 0),
+        M("last-best-after-cache-update", T,
+          "last_best_info = self.get_info(last_best)", "last_best_info = self.get_info(self.get_best_epoch(best_is_train))",
+          "G10/O4"),
+        # twins
+        M("twin:rename-local", T, "save_info_first", "hist_first", "", -1, twin=True),
+        M("twin:rename-last-model-pth", T, "last_model_pth", "prev_model_pth", "", -1, twin=True),
+    ]
+
+
+def selftest(ctx: Ctx):
+    from selftest.mutate import run_selftest
+    return run_selftest("C16", ctx.pkg.repo, _mutants(), floor=18)
